@@ -594,6 +594,18 @@ def run_case(case):
                             return Failure("oracle", f"{where}: writing to the store rebuilt by from_raw_dict changed the "
                                            "store it was exported from")
                 drv.ask("raw")
+            elif kind == "iterall":
+                # a complete pass over the store (oracle only): each occupied index exactly once, in occupied_list
+                # order, each entry the row written at its index -- at any size (a block-wise iterator must not lose
+                # track beyond its first block)
+                got_all = [(int(e["index"]), decode_row(fields, lambda name, e=e: e[name])) for e in store]
+                want_all = [(int(i), ref[int(i)]) for i in store.occupied_list]
+                if got_all != want_all:
+                    k_ = next((k for k, (g, w) in enumerate(zip(got_all, want_all)) if g != w), min(len(got_all), len(want_all)))
+                    return Failure("oracle", f"{where}: a full iteration over {len(want_all)} entries differs from "
+                                   f"occupied_list / retrieve at position {k_}: got "
+                                   f"{got_all[k_] if k_ < len(got_all) else None}, expected "
+                                   f"{want_all[k_] if k_ < len(want_all) else None}")
             elif kind == "iternew":
                 its[op["k"]] = [iter(store), 0, version[0], list(ref.items())]
                 drv.ask(f"iter new {op['k']}")
@@ -660,9 +672,39 @@ def run_case(case):
         drv.close()
 
 
+def gen_large(rng):
+    """stores of several hundred to a few thousand entries (sizes around powers of two): few operations, complete
+    passes"""
+    cap = cap0 = rng.choice([300, 513, 700, 1025, 2100])
+    layout = rng.choice(["a", "ab", "ba", "ad"])
+    tok = [0]
+
+    def fresh():
+        tok[0] += 1
+        return tok[0]
+
+    ops = []
+    for _ in range(rng.randint(2, 4)):
+        n = rng.choice([cap // 3, 255, 256, 257, 511, 512, 513, cap - 1, cap])
+        idx = rng.sample(range(cap), min(n, cap))
+        if rng.random() < 0.3:
+            idx = idx + idx[: len(idx) // 10]                    # some indices named twice
+        ops.append({"op": "add", "xfs": [], "rows": [[i, fresh()] for i in idx]})
+        ops.append({"op": "iterall"})
+        if rng.random() < 0.3:
+            ops.append({"op": "clear"})
+        elif rng.random() < 0.3:
+            ops.append({"op": "resize", "cap": cap * 2 + 1})
+            cap = cap * 2 + 1
+    ops.append({"op": "raw", "npz": False})
+    ops.append({"op": "iterall"})
+    return {"cap": cap0, "layout": layout, "ops": ops}
+
+
 def run(ctx):
     ctx.explore("histories", gen_case, run_case, ctx.n(600, 30000), nontrivial=nontrivial,
                 time_budget=40 if ctx.quick else 500)
+    ctx.explore("large", gen_large, run_case, ctx.n(3, 60), time_budget=20 if ctx.quick else 200)
 
 
 def replay(ctx, case):
